@@ -17,6 +17,8 @@ from pathlib import Path
 sys.path.insert(0, str(Path(__file__).resolve().parent))
 import lib  # noqa
 import c13_gen as gen  # noqa
+sys.path.insert(0, str(Path(__file__).resolve().parent.parent / 'translate'))
+import c13_decisions as dec  # noqa
 
 PID = 'C13'
 MODEL_TYPES = ['line', 'line2', 'spring', 'tri', 'tri2', 'quad', 'quad2', 'polygon', 'tet',
@@ -1181,6 +1183,108 @@ def report(ctx, cases, ev, do_shrink=True):
     return n_oracle, n_corr
 
 
+# ------------------------------------------------ decisions (tie T, PropsGen.v)
+GEN_DECISIONS = lib.COQ / 'C13' / 'gen' / 'Decisions.v'
+BASE_DECISIONS = lib.COQ / 'C13' / 'gen_baseline' / 'Decisions.v'
+
+
+def run_probe(ctx):
+    spec = {'probe': True, 'out': str(ctx.scratch / 'probe.json')}
+    try:
+        r = subprocess.run([lib.PY, str(lib.VERIF / 'harness' / 'c13_impl.py')],
+                           input=json.dumps(spec), text=True, capture_output=True,
+                           env=lib.impl_env(), timeout=300)
+        if r.returncode != 0:
+            return {'unavailable': r.stderr[-300:]}
+        return json.loads(Path(spec['out']).read_text())
+    except Exception as e:  # noqa
+        return {'unavailable': str(e)[:200]}
+
+
+def first_order_expected(d, t):
+    """what the translated table says _to_first_order does with 25 columns"""
+    if '2' not in t:
+        return 25
+    return dict(d['first_order']).get(t, 'raise')
+
+
+def translate_decisions(ctx):
+    """regenerate coq/C13/gen/Decisions.v from the source under test; validate the
+    translation against the decisions observed on the running code.  Unreadable
+    source or a translation the running code contradicts -> the committed baseline
+    is the (hand) model of the region: tie H, never a violation by itself."""
+    probe = run_probe(ctx)
+    d = None
+    try:
+        d = dec.translate(lib.REPO)
+        tie = 'T'
+    except dec.Unreadable as e:
+        tie = f'H (translator could not read the decisions: {e}; baseline model + correspondence streams)'
+    if d is not None and 'unavailable' not in probe:
+        got = [tuple(x) for x in probe['dispatch']]
+        want = [tuple(x) for x in d['dispatch']]
+        fo = {t: first_order_expected(d, t) for t in d['element_types']}
+        bad = [x for x in want if x not in got] + \
+              [t for t in fo if probe['first_order'].get(t) != fo[t]
+               and not str(probe['first_order'].get(t)).startswith('unavailable')]
+        ctx.notes['decisions_translator_validation'] = (
+            f'{len(want)} dispatch rows + {len(fo)} type names: translation agrees with the '
+            'decisions observed on the running code' if not bad else
+            f'translation contradicted by the running code on {bad[:4]}')
+        if bad:
+            tie = ('H (translation contradicted by the decisions observed on the running code: '
+                   f'{bad[:3]}; baseline model + correspondence streams)')
+            d = None
+    elif d is not None:
+        ctx.notes['decisions_translator_validation'] = 'probe unavailable: ' + str(
+            probe.get('unavailable'))[:200]
+    text = dec.to_coq(d, 'femio/graph_processor.py, femio/fem_elemental_attribute.py') \
+        if d is not None else BASE_DECISIONS.read_text()
+    lib.write_if_changed(GEN_DECISIONS, text)
+    ctx.notes['decisions_tie'] = tie
+    for f in ('femio/graph_processor.py', 'femio/fem_elemental_attribute.py'):
+        try:
+            ctx.sources[f + ' (decisions read by translate/c13_decisions.py)'] = lib.sha(
+                (lib.REPO / f).read_text())
+        except OSError:
+            pass
+    return d, probe
+
+
+def validate_decisions_in_coq(ctx, probe):
+    """the GENERATED definitions evaluated inside Coq against the running code:
+    `first_order_src` on every type name, `src_dispatch` row by row"""
+    if 'unavailable' in probe:
+        return None
+    txt = ('From Coq Require Import ZArith String List.\nImport ListNotations.\n'
+           'From FV.C13 Require Import Model PropsGen.\nFrom FV.C13.gen Require Import Decisions.\n'
+           'Open Scope string_scope.\nSet Printing Width 100000.\n'
+           'Goal True. idtac "@@ fo". Abort.\n'
+           'Eval vm_compute in map (fun t => match first_order_src t (zseq 25) with '
+           'Some l => Z.of_nat (length l) | None => (-1)%Z end) src_ELEMENT_TYPES.\n'
+           'Goal True. idtac "@@ types". Abort.\nEval vm_compute in src_ELEMENT_TYPES.\n'
+           'Goal True. idtac "@@ disp". Abort.\nEval vm_compute in src_dispatch.\n')
+    rc, o, err = ctx.coq_eval('decisions_validation', txt, timeout=300)
+    if rc != 0:
+        return 'in-Coq evaluation failed: ' + err[-200:]
+    parts = lib.parse_marked(o)
+    fo = [int(x) for x in re.findall(r'-?\d+', parts.get('fo', '').split(': list')[0])]
+    types = re.findall(r'"([^"]*)"', parts.get('types', ''))
+    disp = [(f, a == 'true', b_ == 'true', c == 'true') for f, a, b_, c in
+            re.findall(r'\("([^"]*)",\s*(true|false),\s*(true|false),\s*(true|false)\)',
+                       parts.get('disp', ''))]
+    want_fo = [(-1 if probe['first_order'].get(t) == 'raise' else probe['first_order'].get(t))
+               for t in types]
+    bad = []
+    if len(fo) != len(types) or fo != want_fo:
+        bad.append('first_order')
+    if sorted(disp) != sorted(tuple(x) for x in probe['dispatch']):
+        bad.append('dispatch')
+    return ('generated definitions evaluated in Coq agree with the running code '
+            f'({len(types)} type names, {len(disp)} dispatch rows)') if not bad else \
+        'generated definitions evaluated in Coq DISAGREE with the running code on ' + ', '.join(bad)
+
+
 def load_corpus():
     d = lib.VERIF / 'corpus' / PID
     out = []
@@ -1203,6 +1307,9 @@ def main(ctx):
                 '(mesh, query); non-trivial = the implementation returned a matrix with at least '
                 'one entry; distinct = distinct (mesh, query)')
     ctx.trusted += [
+        'translate/c13_decisions.py (ast reader of the mode/order1_only dispatch and of the '
+        'first-order table -> coq/C13/gen/Decisions.v; validated on every run against the '
+        'decisions observed on the running code, in Python and by in-Coq evaluation)',
         'hand model coq/C13/Model.v of graph_processor.py (tie H), pinned by the correspondence',
         'harness/c13_impl.py: scipy.sparse -> summed, zero-free, sorted COO triples; '
         'edge-gradient rows sorted (scipy CSR product order inside a row is not modelled)',
@@ -1220,9 +1327,15 @@ def main(ctx):
                         'ELEMENT_TYPES (wf_mesh); duplicate ids are outside the model']
     ctx.scratch = ctx.scratch / f'run_{os.getpid()}'     # concurrent runs do not collide
     ctx.scratch.mkdir(parents=True, exist_ok=True)
+    decisions, probe = translate_decisions(ctx)
     proof_ok, log = ctx.build_props('C13/Props.v')
     if not proof_ok:
         ctx.notes['build_log_tail'] = log[-1500:]
+    gen_ok, glog = ctx.build_props('C13/PropsGen.v')
+    if gen_ok:
+        ctx.notes['decisions_in_coq_validation'] = validate_decisions_in_coq(ctx, probe)
+    else:
+        ctx.notes['gen_build_log_tail'] = glog[-1200:]
     model_ok = True
     if not proof_ok:
         model_ok, mlog, _ = lib.coq_make(['C13/Model.vo'])
@@ -1292,6 +1405,14 @@ def main(ctx):
         bad = [o['name'] for o in ctx.obligations if not o['discharged']]
         ctx.violation('proof-broken', {}, 'all theorems of C13/Props.v check', 'do not check',
                       ', '.join(bad), found_input=False, signature={'kind': 'proof-broken'})
+    if not gen_ok and proof_ok and n_oracle == 0 and n_corr == 0:
+        # the source was read (or the baseline used) and the decisions are NOT the
+        # modelled ones, yet no stream found a failing input
+        bad = [o['name'] for o in ctx.obligations if not o['discharged']]
+        ctx.violation('tie-broken', {'decisions': decisions}, 'the translated decisions are the '
+                      'modelled ones (C13/PropsGen.v checks)', 'PropsGen.v does not check',
+                      ', '.join(bad), found_input=False,
+                      signature={'kind': 'tie-broken', 'what': 'decisions'})
     ctx.notes['model_variants'] = dict(VARIANT)
     rc = ctx.finish()
     shutil.rmtree(ctx.scratch, ignore_errors=True)
